@@ -55,7 +55,7 @@ func c11Logger() logger.Logger {
 
 func c11Run(c *Case) (string, []Fail) {
 	switch c.Kind {
-	case 0, 1:
+	case 0, 1, 8:
 		return c11RunPacker(c)
 	case 2:
 		return c11RunIDScript(c)
@@ -67,6 +67,8 @@ func c11Run(c *Case) (string, []Fail) {
 		return c11RunUnderFakeClock(c)
 	case 7:
 		return c11RunTwoMakers(c)
+	case 9:
+		return c11RunSerialized(c)
 	}
 	return "badcase", nil
 }
@@ -406,6 +408,9 @@ func c11RunPacker(c *Case) (out string, fails []Fail) {
 	if target < 0 || target > 4 {
 		return "badcase", nil
 	}
+	if c.Kind == 8 && target != 1 && target != 2 {
+		return "badcase", nil // kind 8: opaque one-letter records, the packed modes only
+	}
 	tag := string(c.S[0])
 	// ---- the op list
 	type opT struct {
@@ -670,6 +675,17 @@ func c11Judge(c *Case, mk *c11Maker, frozen int64, streams [][]byte, results []*
 		if c.Kind == 0 {
 			payload = hex.EncodeToString(d.payload)
 		}
+		if c.Kind == 8 {
+			payload += "=" + c11RunLengths(d.payload)
+		}
+		if c.Kind == 9 {
+			var arr []json.RawMessage
+			if err := json.Unmarshal(d.payload, &arr); err != nil {
+				payload = "notjson"
+			} else {
+				payload = strconv.Itoa(len(arr))
+			}
+		}
 		if c.Kind == 6 {
 			items = append(items, fmt.Sprintf("%s.%s.%s.%s.%s.%s", ch.ID, map[bool]string{true: "1", false: "0"}[idok], size, flags,
 				hex.EncodeToString([]byte(d.tag)), payload))
@@ -749,6 +765,11 @@ func c11Judge(c *Case, mk *c11Maker, frozen int64, streams [][]byte, results []*
 			}
 			want := bytes.Join(streams[at:at+n], nil)
 			if !bytes.Equal(want, d.payload) {
+				if perm := c11IsPermutation(d.payload, streams[at:at+n]); perm != nil {
+					fail("c11:order-within-chunk", "chunk %s (size %d, mode %d): holds records %d..%d but NOT in write order: position -> record %v (record lengths %v)",
+						ch.ID, n, target, at, at+n-1, perm, c11Lens(streams[at:at+n]))
+					return items, fails
+				}
 				fail("c11:payload", "chunk %s (size %d): entries are not records %d..%d in order: got %s want %s", ch.ID, n, at, at+n-1, c11Hex(d.payload), c11Hex(want))
 				return items, fails
 			}
@@ -1261,6 +1282,8 @@ func c11Gen(g *Gen) {
 		}
 	}
 	c11GenWrapperBoundaries(g)
+	c11GenLarge(g)
+	c11GenSerializedValues(g)
 	c11GenDatadogReal(g)
 	c11GenIDs(g)
 	c11GenFakeClock(g)
